@@ -40,7 +40,7 @@ func init() {
 }
 
 func genPFaultCase(t *rapid.T, prop string) *Case {
-	o := WorldOpts{MinBuilds: 1, MaxBuilds: 3, MaxMerges: 1, BigPct: 0, MaxTinyDocs: 5, MoreDV: true}
+	o := WorldOpts{NoExtremes: true, MinBuilds: 1, MaxBuilds: 3, MaxMerges: 1, BigPct: 0, MaxTinyDocs: 5, MoreDV: true}
 	if rapid.IntRange(0, 2).Draw(t, "swarm-few") == 0 {
 		o.FewFields = true
 	}
